@@ -3,7 +3,7 @@
 From Coq Require Import String Ascii.
 From AV Require Import Lib.Base Lib.V Gen.Consts.
 From AV Require Export Router.Pattern.
-From AV Require Import Router.Match Router.Path Router.ResourceDef Router.Quoter.
+From AV Require Import Router.Match Router.Path Router.ResourceDef Router.Quoter Router.Utf8 Router.ResourceDefU.
 Open Scope N_scope.
 
 (* a path, possibly long: pre ++ unit^n ++ post *)
@@ -145,11 +145,94 @@ Definition run_quotes (prot : bytes) (inputs : list bytes) : V :=
   | Val q => VT "quotes" (map (fun s => VOpt VBytesS (requote q s)) inputs)
   end.
 
+(* ------------------------------------------------------------------ scalar-level model (UTF-8) *)
+(* Patterns carry their constants as scalar sequences; paths and values arrive as UTF-8 bytes and
+   are decoded.  Every observable is rendered as bytes again ([encode]). *)
+Definition VPairsU (l : list (name * list N)) : V :=
+  VL (map (fun x : name * list N => VT "kv" [VBytes (fst x); VBytesS (encode (snd x))]) l).
+
+Definition VPatternsU (d : bool * patterns) : V :=
+  match snd d with
+  | Single p => VT "single" [VBool (fst d); VBytes (encode (render p))]
+  | PList l => VT "list" (VBool (fst d) :: map (fun p => VBytes (encode (render p))) l)
+  end.
+
+Definition step_def_u (p : path) (d : R rdef) : option path * V :=
+  match d with
+  | Panic => (Some p, VT "def" [VT "panic" []])
+  | Val rd =>
+      match unprocessed_u p with
+      | Panic => (None, VT "def" [VT "panic" []])
+      | Val u =>
+          let im := is_match_u rd u in
+          let fm := find_match_u rd u in
+          match capture_match_info_u MAXSEG rd p with
+          | Panic => (None, VT "def" [VBool im; VR (VOpt VN) fm; VT "panic" []])
+          | Val (b, p') =>
+              (Some p', VT "def" [VBool im; VR (VOpt VN) fm; VBool b;
+                                  VR VPairsU (path_iter_u p');
+                                  VR (fun x => VBytesS (encode x)) (unprocessed_u p');
+                                  VN (segment_count p')])
+          end
+      end
+  end.
+
+Fixpoint run_defs_u (p : path) (ds : list (R rdef)) : list V :=
+  match ds with
+  | [] => []
+  | d :: r => match step_def_u p d with
+              | (Some p', v) => v :: run_defs_u p' r
+              | (None, v) => [v]
+              end
+  end.
+
+Definition run_match_u (defs : list (bool * patterns)) (ps : list pathspec) : V :=
+  let rds := map (fun d : bool * patterns => construct MAXSEG (snd d) (fst d)) defs in
+  VT "match" [VL (map VPatternsU defs);
+              VL (map (fun p => VL (run_defs_u (path_new (decode (path_bytes p))) rds)) ps)].
+
+Definition run_build_u (is_prefix : bool) (ps : patterns) (vals : list bytes) : V :=
+  match construct MAXSEG ps is_prefix with
+  | Panic => VT "build" [VPatternsU (is_prefix, ps); VT "panic" []]
+  | Val rd =>
+      let vals := map decode vals in
+      let '(ok, built) := resource_path_from_iter rd vals in
+      let names := var_names (rd_segments rd) in
+      let '(ok2, built2) := resource_path_from_map rd (combine names vals) in
+      let back :=
+        if ok then
+          match capture_match_info_u MAXSEG rd (path_new built) with
+          | Panic => [VT "panic" []]
+          | Val (b, p') => [VBool b; VR VPairsU (path_iter_u p'); VR (fun x => VBytesS (encode x)) (unprocessed_u p')]
+          end
+        else [] in
+      VT "build" ([VPatternsU (is_prefix, ps); VBool ok; VBytesS (encode built); VBool ok2; VBytesS (encode built2)] ++ back)
+  end.
+
+(* is everything in the case ASCII?  Then the byte-level model (ResourceDef.v / Path.v, the one
+   the C10 theorems of the first batch are about) must give the same observations. *)
+Definition ascii (b : list N) : bool := forallb (fun x => x <? 128) b.
+Definition seg_ascii (s : seg) : bool := match s with SConst b => ascii b | SVar _ _ => true end.
+Definition pats_ascii (ps : patterns) : bool :=
+  match ps with
+  | Single p => forallb seg_ascii (p_segs p)
+  | PList l => forallb (fun p => forallb seg_ascii (p_segs p)) l
+  end.
+
+Definition both (is_ascii : bool) (vu vb : V) : V :=
+  if is_ascii then (if V_eqb vu vb then vu else VT "models-differ" [vu; vb]) else vu.
+
 Definition run_C10_v (c : case) : V :=
   match c with
-  | KMatch ds ps => run_match ds ps
-  | KMatchS ds paths => run_match ds (map PBytes (split_hex paths []))
-  | KBuild pre ps vals => run_build pre ps vals
+  | KMatch ds ps =>
+      both (forallb (fun d => pats_ascii (snd d)) ds && forallb (fun p => ascii (path_bytes p)) ps)
+           (run_match_u ds ps) (run_match ds ps)
+  | KMatchS ds paths =>
+      let ps := map PBytes (split_hex paths []) in
+      both (forallb (fun d => pats_ascii (snd d)) ds && forallb (fun p => ascii (path_bytes p)) ps)
+           (run_match_u ds ps) (run_match ds ps)
+  | KBuild pre ps vals =>
+      both (pats_ascii ps && forallb ascii vals) (run_build_u pre ps vals) (run_build pre ps vals)
   | KQuote prot s => run_quote prot s
   | KQuoteS prot inputs => run_quotes prot (split_hex inputs [])
   end.
